@@ -16,7 +16,13 @@ var Runner = core.Runner{Gen: Gen, Eval: dnsops.Eval}
 var Eval = dnsops.Eval
 
 func add(c *core.Ctx, class, line string) {
-	if cs := Eval(c, line); cs != nil && !dnsimpl.Skipped(cs.Impl) {
+	cs := Eval(c, line)
+	switch {
+	case cs == nil:
+		c.Drop(class, "not evaluated")
+	case dnsimpl.Skipped(cs.Impl):
+		c.Drop(class, "skipped: hang budget of the operation spent")
+	default:
 		cs.Class = class
 		c.Add(*cs)
 	}
@@ -46,7 +52,26 @@ func RandResponse(r *rand.Rand, qname g.Name, ipPool [][]byte) g.Msg {
 	k := r.Intn(7)
 	for i := 0; i < k; i++ {
 		ttl := uint32(r.Intn(100000))
-		switch r.Intn(9) {
+		switch r.Intn(11) {
+		case 9:
+			// PTR records whose owner is not an IPv4 reverse name, next to the address records: DNS-SD
+			// service enumeration / instance PTRs, ip6.arpa nibble names, arbitrary owners
+			var o g.Name
+			switch r.Intn(4) {
+			case 0:
+				o = g.N("_services._dns-sd._udp.local")
+			case 1:
+				o = g.N([]string{"_http._tcp.local", "_airplay._tcp.local", "_ipp._tcp.example.com"}[r.Intn(3)])
+			case 2:
+				o = g.N("b.a.9.8.7.6.5.0.0.0.0.0.0.0.0.0.0.0.0.0.0.0.0.0.8.b.d.0.1.0.0.2.ip6.arpa")
+			default:
+				o = owner
+			}
+			m.An = append(m.An, g.RR{Name: o, Type: g.TypePTR, Class: 1, TTL: ttl, Target: g.HostName(r, "local"), IsName: true})
+		case 10:
+			// … and an IPv4 reverse PTR in the same answer section
+			o := g.N(fmt.Sprintf("%d.%d.%d.%d.in-addr.arpa", r.Intn(256), r.Intn(256), r.Intn(256), r.Intn(256)))
+			m.An = append(m.An, g.RR{Name: o, Type: g.TypePTR, Class: 1, TTL: ttl, Target: g.HostName(r, "example.net"), IsName: true})
 		case 0, 1, 2:
 			m.An = append(m.An, g.RR{Name: owner, Type: g.TypeA, Class: 1, TTL: ttl, Raw: ipPool[r.Intn(len(ipPool))][:4]})
 		case 3, 4:
@@ -249,7 +274,7 @@ func NBNSBoundary(c *core.Ctx) {
 // Gen is the C17 correspondence run.
 func Gen(c *core.Ctx) {
 	r := c.Rnd
-	c.Res.Rule = "dns.name/dns.question: names of 1..127 labels (1..63 bytes) from the independent builder, plain / compressed / through pointer chains of depth 1..300, at every name offset of built messages, every truncation, pointer / label-length / count / RDLENGTH corruption, names assembled through pointers around the 255 byte limit, random mutation; mdns/nbns/nbns.names: well-formed mDNS and NBNS messages (names returned vs reference decoder), node status RDATA of every length around 1+18*NUM_NAMES (one entry / one byte short, exact, with statistics; last in the message, followed by a record / stray bytes, RDLENGTH overwritten; exact-capacity and roomy backing arrays); dns.rrs/dns.answers/dns.process: random responses (A, AAAA, CNAME chains, PTR, MX, TXT, unassigned types, records in all sections) singly and in sequences of 1..3 responses (also malformed first, then well-formed, on the same handler; after every message the handler is probed with DNSFind / DNSExist / an empty response), with the same closure; merge/hostupd: random entries and update sequences from the five sources over a small value pool; dns.encname/dns.encquery: valid and boundary names. distinct = distinct protocol lines; non-trivial = the input passed the first length / offset test"
+	c.Res.Rule = "dns.name/dns.question: names of 1..127 labels (1..63 bytes) from the independent builder, plain / compressed / through pointer chains of depth 1..300, at every name offset of built messages, every truncation, pointer / label-length / count / RDLENGTH corruption, names assembled through pointers around the 255 byte limit, random mutation; mdns/nbns/nbns.names: well-formed mDNS and NBNS messages (names returned vs reference decoder), node status RDATA of every length around 1+18*NUM_NAMES (one entry / one byte short, exact, with statistics; last in the message, followed by a record / stray bytes, RDLENGTH overwritten; exact-capacity and roomy backing arrays); dns.rrs/dns.answers/dns.answers0 (DecodeAnswers on the zero DNSEntry)/dns.process: random responses (A, AAAA, CNAME chains, IPv4 reverse PTR, PTR records with other owners — DNS-SD service names, ip6.arpa nibble names, arbitrary owners — before / between / after the address records, MX, TXT, unassigned types, records in all sections) singly and in sequences of 1..3 responses (also malformed first, then well-formed, on the same handler; after every message the handler is probed with DNSFind / DNSExist / an empty response), with the same closure; merge/hostupd: random entries and update sequences from the five sources over a small value pool; dns.encname/dns.encquery: valid and boundary names. distinct = distinct protocol lines; non-trivial = the input passed the first length / offset test"
 	for _, l := range c.CorpusLines() {
 		add(c, "corpus", l)
 	}
@@ -333,6 +358,10 @@ func Gen(c *core.Ctx) {
 		}
 		add(c, "process", processLine(b.Bytes))
 		add(c, "answers", fmt.Sprintf("dns.answers %d %s", b.QEnd[0], core.Hex(b.Bytes)))
+		if i%4 == 0 {
+			// the exported DecodeAnswers on the zero DNSEntry (nil maps)
+			add(c, "answers-zero-entry", fmt.Sprintf("dns.answers0 %d %s", b.QEnd[0], core.Hex(b.Bytes)))
+		}
 		add(c, "question", questionLine(b.Bytes, 12))
 		for _, off := range b.Marks.NameOff {
 			add(c, "name-in-msg", nameLine(b.Bytes, off))
@@ -371,6 +400,39 @@ func Gen(c *core.Ctx) {
 			add(c, "answers-mutated", fmt.Sprintf("dns.rrs %d %d %s", len(m.An), b.QEnd[0], core.Hex(mm)))
 			add(c, "name-mutated", nameLine(mm, b.Marks.NameOff[r.Intn(len(b.Marks.NameOff))]))
 			add(c, "question-mutated", questionLine(mm, 12))
+		}
+	}
+	// D1. address records next to PTR records the table does not use (owner not an IPv4 reverse name):
+	// the PTR record before, between and after the A / AAAA records; singly and after a first response
+	otherOwners := []string{"_services._dns-sd._udp.local", "_http._tcp.local", "_airplay._tcp.local",
+		"b.a.9.8.7.6.5.0.0.0.0.0.0.0.0.0.0.0.0.0.0.0.0.0.8.b.d.0.1.0.0.2.ip6.arpa", "1.0.0.127.in-addr.arpa.example", "x"}
+	for i, n := 0, c.Scale(150, 4000); i < n; i++ {
+		qn := g.HostName(r, []string{"example.com", "local"}[r.Intn(2)])
+		m := g.Msg{ID: uint16(r.Intn(65536)), Flags: 0x8180, Q: []g.Question{{Name: qn, Type: 255, Class: 1}}}
+		na := 1 + r.Intn(3)
+		pos := r.Intn(na + 1)
+		for k := 0; k <= na; k++ {
+			if k == pos {
+				o := g.N(otherOwners[r.Intn(len(otherOwners))])
+				if r.Intn(6) == 0 {
+					o = qn
+				}
+				m.An = append(m.An, g.RR{Name: o, Type: g.TypePTR, Class: 1, TTL: uint32(r.Intn(5000)), Target: g.HostName(r, "local"), IsName: true})
+			}
+			if k < na {
+				if r.Intn(3) == 0 {
+					m.An = append(m.An, g.RR{Name: qn, Type: g.TypeAAAA, Class: 1, TTL: uint32(r.Intn(5000)), Raw: ipPool[r.Intn(len(ipPool))]})
+				} else {
+					m.An = append(m.An, g.RR{Name: qn, Type: g.TypeA, Class: 1, TTL: uint32(r.Intn(5000)), Raw: ipPool[r.Intn(len(ipPool))][:4]})
+				}
+			}
+		}
+		b := g.Build(m, randOpts(r))
+		add(c, "process-ptr-other-owner", processLine(b.Bytes))
+		add(c, "answers-ptr-other-owner", fmt.Sprintf("dns.answers %d %s", b.QEnd[0], core.Hex(b.Bytes)))
+		if i%3 == 0 {
+			add(c, "process-ptr-other-owner", processLine(recent[r.Intn(len(recent))], b.Bytes))
+			add(c, "answers-zero-entry", fmt.Sprintf("dns.answers0 %d %s", b.QEnd[0], core.Hex(b.Bytes)))
 		}
 	}
 	// pure noise
